@@ -12,6 +12,7 @@ import (
 	libshare "github.com/celestiaorg/go-square/v4/share"
 	"github.com/celestiaorg/rsmt2d"
 
+	"github.com/celestiaorg/celestia-node/internal/verifhook"
 	"github.com/celestiaorg/celestia-node/share"
 	"github.com/celestiaorg/celestia-node/share/eds"
 	"github.com/celestiaorg/celestia-node/share/shwap"
@@ -54,6 +55,7 @@ func CreateODS(
 	if err != nil {
 		return fmt.Errorf("creating ODS file: %w", err)
 	}
+	verifhook.Point("ods:created")
 
 	shareSize := len(eds.GetCell(0, 0))
 	hdr := &headerV0{
@@ -67,6 +69,7 @@ func CreateODS(
 	if errClose := f.Close(); errClose != nil {
 		err = errors.Join(err, fmt.Errorf("closing created ODS file: %w", errClose))
 	}
+	verifhook.Point("ods:closed")
 
 	return err
 }
@@ -79,10 +82,12 @@ func writeODSFile(f *os.File, axisRoots *share.AxisRoots, eds *rsmt2d.ExtendedDa
 	if err := writeHeader(f, hdr); err != nil {
 		return fmt.Errorf("writing header: %w", err)
 	}
+	verifhook.Point("ods:header-written")
 
 	if err := writeAxisRoots(buf, axisRoots); err != nil {
 		return fmt.Errorf("writing axis roots: %w", err)
 	}
+	verifhook.Point("ods:roots-written")
 
 	if err := writeODS(buf, eds); err != nil {
 		return fmt.Errorf("writing ODS: %w", err)
@@ -91,6 +96,7 @@ func writeODSFile(f *os.File, axisRoots *share.AxisRoots, eds *rsmt2d.ExtendedDa
 	if err := buf.Flush(); err != nil {
 		return fmt.Errorf("flushing ODS file: %w", err)
 	}
+	verifhook.Point("ods:flushed")
 
 	return nil
 }
@@ -114,6 +120,7 @@ func writeODS(w io.Writer, eds *rsmt2d.ExtendedDataSquare) error {
 			if err != nil {
 				return fmt.Errorf("writing share: %w", err)
 			}
+			verifhook.Point("ods:share-written")
 		}
 	}
 	return nil
